@@ -39,7 +39,9 @@ def project(line, impl):
             continue
         k, v = t.split("=", 1)
         if k == task + ".build":
-            build = v
+            build = canon_result(v)
+        elif v == "no-task" and build.startswith("err:") and k.startswith(task + "."):
+            continue    # the setup failed, the task has ended: commands are not answered
         elif k in ("conn.A", "drv.W"):
             res.append(canon_result(v))
         elif k == task + ".U":
@@ -491,6 +493,110 @@ class C04(Prop):
             add(line(role, "g1,wc=0", [start_op(role), "o%d" % sid, "s%d:000400" % sid]))
             add(line(role, "g1,wc=0", [start_op(role)] + grants + ["o%d" % sid, "s%d:000400" % sid]))
 
+    def fam_own(self, big, rng, add):
+        """the endpoint's OWN streams: STOP_SENDING on the control / QPACK streams at every position, the setup waiting for
+        stream credit (uc=0/1/2 + gu) or for write credit on the control stream (SETTINGS accepted in pieces), the server's
+        final GOAWAY (accept -> shutdown(0)) waiting for credit, interrupted, or meeting the stopped stream"""
+        def merge(lists):
+            """a random interleaving that keeps the order inside every list"""
+            pool = [list(l) for l in lists if l]
+            out = []
+            while pool:
+                i = rng.randrange(len(pool))
+                out.append(pool[i].pop(0))
+                if not pool[i]:
+                    pool.pop(i)
+            return out
+
+        for role in ("server", "client"):
+            pc = peer_sids(role)[0]
+            own = local_sids(role)
+            gs = grease_sid(role)
+            st = start_op(role)
+            one = "conn.A" if role == "server" else "drv.W"
+            seqs = [
+                ["o%d" % pc, "s%d:000400" % pc, "s%d:070100" % pc],
+                ["o%d" % pc, "s%d:00" % pc, "s%d:0400" % pc, "s%d:0701" % pc, "s%d:00" % pc],
+                ["o%d" % pc, "s%d:000400070100" % pc],
+                ["o%d" % pc, "s%d:000400" % pc, "s%d:070104" % pc, "s%d:070100" % pc],
+                ["o%d" % pc, "s%d:000400" % pc, "s%d:070100" % pc, "s%d:0000" % pc],      # DATA behind the GOAWAY
+                ["o%d" % pc, "s%d:000400" % pc, "s%d:030101" % pc, "s%d:070100" % pc],
+                ["o%d" % pc, "s%d:000400" % pc, "s%d:0d0101" % pc],
+                ["o%d" % pc, "s%d:000400" % pc, "f%d" % pc],
+            ]
+            # (1) STOP_SENDING on the own streams at every position, credit unlimited
+            for g in ("g0", "g1"):
+                for seq in seqs:
+                    for xs in ([own[0]], [own[1]], [own[2]], [own[1], own[0]], [own[0], gs]):
+                        xops = ["x%d:%d" % (x, 7 + i) for i, x in enumerate(xs)]
+                        for p in range(len(seq) + 1):
+                            ops = seq[:p] + xops + seq[p:]
+                            add(line(role, g, [st] + ops + [st]))
+                            add(line(role, g, ops + [one, one]))
+                            q = rng.randrange(0, len(ops) + 1)
+                            add(line(role, g, ops[:q] + [one] + ops[q:] + [st, u_op(role)]))
+            # (2) the setup waits for stream credit; (3) for write credit on its three streams; STOP_SENDING meanwhile
+            n_rand = 6000 if big else 1500
+            for _ in range(n_rand):
+                g1 = rng.random() < 0.4
+                seq = list(rng.choice(seqs))
+                cfg = ["g1" if g1 else "g0"]
+                lists = [seq]
+                # (grease on and write credit short: the control stream exists from the start, so that no grant is lost)
+                uc = rng.choice([None, None, 0, 1, 2, 3, 4])
+                if uc is not None:
+                    cfg.append("uc=%d" % uc)
+                    lists.append(["gu%d" % k for k in rng.choice([[3], [1, 1, 1], [1, 2], [2, 5], [1], [1, 1, 1, 1], [4]])])
+                if not g1 and rng.random() < 0.3:
+                    cfg.append(rng.choice(["mfs=0", "mfs=63", "mfs=64", "mfs=16384", "mfs=1073741824", "ec=1", "dg=1", "wt=1", "wts=70"]))
+                wc = rng.choice([None, 0, 0, 1, 5, 25, 26, 27, 28, 29, 30]) if not g1 else rng.choice([None, 0, 0, 5, 27, 40])
+                if wc is not None and g1 and uc == 0:
+                    cfg[-1] = "uc=1"
+                if wc is not None:
+                    cfg.append("wc=%d" % wc)
+                    if g1:
+                        # the length of the control stream header is 28..35 with grease: totals stay outside that window
+                        targets = rng.choice([[27, 35, 37, 38], [35, 38], [20, 36, 39], [40], [27], [35, 36]])
+                        grants, have = [], wc
+                        for t in targets:
+                            if t > have:
+                                grants.append("gw%d:%d" % (own[0], t - have))
+                                have = t
+                        if wc < 9:
+                            lists.append(rng.choice([["gw%d:100" % gs], ["gw%d:3" % gs, "gw%d:100" % gs], []]))
+                    else:
+                        grants = ["gw%d:%d" % (own[0], k) for k in rng.choice(
+                            [[26], [29], [10, 16], [10, 16, 3], [13, 13, 1, 1, 1], [1, 25, 2, 1], [5, 5, 5, 5, 5, 1, 3], [25], [26, 2], [100],
+                             [20, 2, 1, 3], [19, 3], [22, 3]])]
+                    lists.append(grants)
+                    lists.append(rng.choice([["gw%d:1" % own[1], "gw%d:1" % own[2]], ["gw%d:1" % own[2], "gw%d:1" % own[1]],
+                                             ["gw%d:1" % own[1]], ["gw%d:5" % own[1], "gw%d:5" % own[2]]]))
+                r = rng.random()
+                if r < 0.45:
+                    lists.append(["x%d:%d" % (rng.choice(own), rng.randrange(0, 300))])
+                elif r < 0.55:
+                    lists.append(["x%d:1" % rng.choice(own), "x%d:2" % rng.choice(own)])
+                api = rng.choice([[st], [st], [one], [one, one], [st, u_op(role), st], [one, u_op(role), one], [st, st]])
+                lists.append(api)
+                ops = merge(lists)
+                # the credit ops that open the own streams come before those that grant write credit on them more often
+                add(line(role, ",".join(cfg), ops))
+            # (4) the server's final GOAWAY: credit for the setup exactly, then the peer's GOAWAY, then credit byte by byte,
+            #     a command that interrupts the accept loop, STOP_SENDING, more frames from the peer
+            if role == "server":
+                up = ["gw%d:26" % own[0], "gw%d:1" % own[1], "gw%d:1" % own[2]]
+                peer = ["o%d" % pc, "s%d:000400" % pc, "s%d:070100" % pc]
+                tails = [["gw3:1", "gw3:1", "gw3:1"], ["gw3:3"], ["gw3:2", "x3:7"], ["x3:7"], ["gw3:1", "conn.U", "gw3:5"],
+                         ["conn.AS", "conn.AL", "gw3:3"], ["gw3:2", "s%d:0000" % pc, "gw3:1", "conn.A"], ["s%d:070100" % pc, "gw3:3"],
+                         ["gw3:1", "conn.AL", "gw3:1", "gw3:1", "conn.A"], ["f%d" % pc, "gw3:3", "conn.A"], []]
+                for acc in ("conn.AL", "conn.A"):
+                    for wcs, pre in (("wc=0", up), ("wc=26", []), ("wc=27", []), ("wc=28", []), ("wc=29", [])):
+                        for tail in tails:
+                            for api_first in (True, False):
+                                ops = ([acc] + pre + peer) if api_first else (pre + peer + [acc])
+                                add(line(role, "g0," + wcs, ops + tail))
+                                add(line(role, "g0," + wcs, ops + tail + ["conn.A"]))
+
     def cases(self, tier, rng):
         big = tier == "thorough"
         L, seen = [], set()
@@ -501,6 +607,7 @@ class C04(Prop):
                 L.append(l)
 
         self.fam_grease(big, rng, add)
+        self.fam_own(big, rng, add)
         from props import faults
         for l in faults.cases(big, rng):
             add(l)
